@@ -14,7 +14,11 @@ METHODS = [["lsq_poly", 3]] + [["lsq_poly", o] for o in (1, 2, 4, 5)] + [["splin
           [[m, o] for m in ("lagrange", "krogh", "pchip", "akima", "hermite") for o in (2, 3, 4, 5, 6, 7)]
 TGRIDS = {"T0-300": dict(T_MIN=0, DT=300, DT_SAMPLE=300, NT=3), "T0-0.5": dict(T_MIN=0, DT=0.5, DT_SAMPLE=0.5, NT=4),
           "T0-2": dict(T_MIN=0, DT=2, DT_SAMPLE=2, NT=4), "T1-50": dict(T_MIN=1, DT=50, DT_SAMPLE=50, NT=3),
-          "T0-500": dict(T_MIN=0, DT=500, DT_SAMPLE=500, NT=6)}
+          "T0-500": dict(T_MIN=0, DT=500, DT_SAMPLE=500, NT=6),
+          # steps that are not exactly representable in binary, with temperature counts at which float-step ranges mis-count
+          "T0-0.6x10": dict(T_MIN=0, DT=0.6, DT_SAMPLE=0.6, NT=10), "T0-0.7x11": dict(T_MIN=0, DT=0.7, DT_SAMPLE=0.7, NT=11),
+          "T0-1.3x9": dict(T_MIN=0, DT=1.3, DT_SAMPLE=1.3, NT=9), "T0-1.2x10": dict(T_MIN=0, DT=1.2, DT_SAMPLE=1.2, NT=10),
+          "T0.1-0.1x13": dict(T_MIN=0.1, DT=0.1, DT_SAMPLE=0.1, NT=13)}
 DIMS = OrderedDict([
     ("method", METHODS),
     ("system", ["orthorhombic"] + [s for s in synth.SYSTEMS if s != "orthorhombic"] + [None]),
@@ -26,6 +30,7 @@ DIMS = OrderedDict([
     ("nv", [8, 6, 12]),                       # orders are admissible only below the number of sampled volumes (canon drops the rest)
     ("weights", ["increasing", "equal", "int", "scaled"]),
     ("qorder", [3, 4, 5]),                    # order of the QHA layer's own finite-strain fit
+    ("pve", ["f", "E", "plus"]),              # number format of the P= V= E= volume headers of the phonon file
     ("pgrid", ["p2", "pfrac", "at-limit"]),     # at-limit: the largest NTV whose top pressure is still inside the computed range (within one DELTA_P of its end)
 ])
 PGRIDS = {"p2": dict(NTV=31, DELTA_P=2.0, DELTA_P_SAMPLE=2.0), "pfrac": dict(NTV=27, DELTA_P=0.75, DELTA_P_SAMPLE=2.25, P_MIN=-1.5)}
@@ -37,7 +42,7 @@ def run_case(case):
     method, order = case["method"]
     spec = dict(nv=case.get("nv", 8), nq=case["shape"][0], na=case["shape"][1], lattice=case["lattice"],
                 system=case["system"], compset=case["compset"], static="generic", weights=case.get("weights", "increasing"), wset=case["wset"],
-                interpolator=method, order=order)
+                interpolator=method, order=order, pve=case.get("pve", "f"))
     spec["qha"] = dict(TGRIDS[case["tgrid"]], **PGRIDS["p2" if case.get("pgrid") == "at-limit" else case.get("pgrid", "p2")], order=case.get("qorder", 3))
     synth.VOLUME_SETS.setdefault(8, [320.0, 308.0, 296.0, 284.0, 272.0, 260.0, 248.0, 236.0])
     viol = []
@@ -65,9 +70,12 @@ def run_case(case):
                 raise HarnessError(f"reference qha run failed: {ex!r}")
         try:
             from cij.io import read_config
-            read_config(os.path.join(d, "settings.yaml"))       # the configuration must be schema-valid
+            read_config(os.path.join(d, "settings.yaml"))
         except Exception as ex:
-            raise HarnessError(f"generated configuration is not schema-valid: {ex!r}")
+            # every configuration enumerated here is admissible by the property's own quantifier (documented methods,
+            # orders 1-5 / 2-5 below the number of volumes, documented grid settings): a refusal is a violation
+            return {"viol": [V(f"c12:rejects-valid-configuration:{method}:{type(ex).__name__}", f"{method} order {order}, system {case['system']}, grid {case['tgrid']}: the settings file is refused: {K.fmt_exc(ex)[:300]}")],
+                    "outcome": f"rejected:{method}"}
         try:
             from cij.core.calculator import Calculator
             c = Calculator(os.path.join(d, "settings.yaml"))
@@ -78,6 +86,18 @@ def run_case(case):
             return {"viol": [V(f"c12:raises:{method}:{type(ex).__name__}", f"valid configuration ({method} order {order}, system {case['system']}, grid {case['tgrid']}) raised {K.fmt_exc(ex)}")],
                     "outcome": f"raises:{method}"}
         nt = len(t)
+        # wiring of the interpolation: the spectrum the calculator works with is the one interpolate_modes returns for the
+        # CONFIGURED method and order on the calculator's own volume grid (C11 decides what interpolate_modes returns)
+        try:
+            from cij.core.mode_gamma import interpolate_modes
+            f_d, g_d, b_d = interpolate_modes(c.qha_input, numpy.asarray(c.v_array), method, order)
+            got3 = (numpy.asarray(c.freq_array), numpy.asarray(c.mode_gamma[1]), numpy.asarray(c.mode_gamma[0]))
+            for nm, o, r in zip(("frequencies", "gamma", "V dgamma/dV"), got3, (f_d, g_d, b_d)):
+                if o.shape != numpy.shape(r) or not numpy.array_equal(o, numpy.asarray(r), equal_nan=True):
+                    viol.append(V(f"c12:wiring:{nm.split()[0]}", f"the calculator's {nm} are not those of interpolate_modes(method={method!r}, order={order}) on its volume grid (QHA fit order {case.get('qorder', 3)})"))
+                    break
+        except AttributeError:
+            pass        # attribute layout changed: the wiring comparison is skipped, never an alarm
         for k in iso:
             a, b = numpy.asarray(iso[k]), numpy.asarray(adi[k])
             name = "c%d%d" % tuple(k.voigt)
